@@ -154,14 +154,59 @@ Definition unchanged_watch_b (s : st) (rehash : list (str * option N)) : bool :=
 (* ------------------------------------------------------------------------------------------ *)
 (* Keys reachable from the edited files and from the steps in G (owners of a glob registration
    whose match set changes: glob registrations are not part of Graph.st) along dependency edges
-   (file -> consuming step, step -> output file) and creator links between steps. *)
+   (file -> consuming step, step -> output file) and creator links (a step in the cone -> the
+   steps and files it declared).  An over-approximation of the three clauses of the property:
+   it is closed under "consumes an output / was declared by a step IN THE CONE", whether or not
+   that step is eventually executed. *)
 Inductive down (s : st) (E : list str) (G : list str) : key -> Prop :=
 | down_edited f : In f E -> down s E G (KFile, f)
 | down_glob l : In l G -> down s E G (KStep, l)
 | down_dep a b : down s E G a -> has_dep a b s = true -> down s E G b
-| down_created a b : down s E G (KStep, a) -> creator_of (KStep, b) s = Some (KStep, a) ->
-                     down s E G (KStep, b).
+| down_created a b : down s E G (KStep, a) -> In b (products (KStep, a) s) -> down s E G b.
 Definition in_cone (s : st) (E G : list str) (l : str) : Prop := down s E G (KStep, l).
+
+(* the files named by hs are source files: declared static and confirmed (present or missing) *)
+Definition static_sources_b (s : st) (hs : list (str * option N)) : bool :=
+  forallb (fun ph => match fstate_of (fst ph) s with
+                     | Some FConfirmed | Some FMissing => true | _ => false end) hs.
+
+(* The transactions of a rebuild that cone_invariant_partial covers.  q is the quiescent state the
+   cone is computed on, s the state in which the transaction is applied.
+   - the EXTERNAL re-hash results of edited source files (startup or watch commit);
+   - a step of the cone marked PENDING (environment change, persist_nglob_matches);
+   - pop_next_job for a step that satisfies the dispatch predicate;
+   - validate_dynamic_job putting a cone step back to PENDING;
+   - the successful completion (or skip) of a cone step whose new output hashes belong to
+     output files of that step.
+   NOT covered (they change nodes or dependency rows, so the cone itself moves): define_step,
+   amend_step, declare_static, reset_for_rerun (execute_job's first transaction),
+   _reset_step_to_pending, failed completions, delete_detached, hold/release. *)
+Inductive cone_op (q : st) (E G : list str) (s : st) : op -> Prop :=
+| co_external hs : (forall ph, In ph hs -> In (fst ph) E) ->
+                   cone_op q E G s (OpUpdateHashes CExternal hs)
+| co_mark l : in_cone q E G l -> cone_op q E G s (OpMarkStepPending l)
+| co_dispatch l : dispatch_guard l s = true -> cone_op q E G s (OpDispatch l)
+| co_validate l : in_cone q E G l -> cone_op q E G s (OpValidatePending l)
+| co_exec_ok l hs : in_cone q E G l ->
+                    (forall ph, In ph hs -> has_dep (KStep, l) (KFile, fst ph) q = true) ->
+                    cone_op q E G s (OpExecEnd l [] CSucceeded hs true false).
+Fixpoint cone_ops (q : st) (E G : list str) (s : st) (ops : list op) : Prop :=
+  match ops with
+  | [] => True
+  | o :: ops' => cone_op q E G s o /\ cone_ops q E G (apply_op s o) ops'
+  end.
+
+(* commands are executed for the steps that are dispatched without a stored hash (RUNNING);
+   a dispatch with a stored hash is a hash check (CHECKING) that executes nothing *)
+Fixpoint executed (ops : list op) (s : st) : list str :=
+  match ops with
+  | [] => []
+  | o :: ops' =>
+    match o with
+    | OpDispatch l => if has_hash l s then [] else [l]
+    | _ => []
+    end ++ executed ops' (apply_op s o)
+  end.
 
 (* ------------------------------------------------------------------------------------------ *)
 (* Extended trace checker (Graph.op + revert_optional) for the E2 correspondence               *)
